@@ -53,7 +53,7 @@ func (b *c07B) atom(k int) []rj.Stmt {
 	panic("atom")
 }
 
-const c07NFrames = 17
+const c07NFrames = 20
 
 // frame wraps inner in construct k.
 func (b *c07B) frame(k int, inner []rj.Stmt) []rj.Stmt {
@@ -97,6 +97,18 @@ func (b *c07B) frame(k int, inner []rj.Stmt) []rj.Stmt {
 		name := fmt.Sprintf("wr%d", id)
 		b.lib = append(b.lib, &rj.BlockDef{Name: name, Body: []rj.Stmt{rj.T("<"), &rj.YieldContent{}, rj.T(">")}})
 		return []rj.Stmt{&rj.Yield{Name: name, HasContent: true, Content: inner}}
+	case 17: // the wrapper shows the content with a context of its own and reads '.' afterwards
+		name := fmt.Sprintf("wc%d", id)
+		b.lib = append(b.lib, &rj.BlockDef{Name: name, Body: []rj.Stmt{rj.T("<"), &rj.YieldContent{Ctx: rj.S("YC")}, rj.T("|w.="), rj.E(&rj.Dot{}), rj.T(">")}})
+		return []rj.Stmt{&rj.Yield{Name: name, Ctx: rj.S("WC"), HasContent: true, Content: inner}}
+	case 18: // ... inside a range of the wrapper
+		name := fmt.Sprintf("wr%d", id)
+		b.lib = append(b.lib, &rj.BlockDef{Name: name, Body: []rj.Stmt{&rj.Range{X: rj.V("rS"), Body: []rj.Stmt{rj.T("<"), &rj.YieldContent{Ctx: rj.S("YC")}, rj.T("|w.="), rj.E(&rj.Dot{}), rj.T(">")}}, rj.T("|after.="), rj.E(&rj.Dot{})}})
+		return []rj.Stmt{&rj.Yield{Name: name, HasContent: true, Content: inner}}
+	case 19: // the content is shown twice
+		name := fmt.Sprintf("w2%d", id)
+		b.lib = append(b.lib, &rj.BlockDef{Name: name, Body: []rj.Stmt{rj.T("<"), &rj.YieldContent{}, rj.T("|"), &rj.YieldContent{Ctx: rj.S("YC")}, rj.T("|w.="), rj.E(&rj.Dot{}), rj.T(">")}})
+		return []rj.Stmt{&rj.Yield{Name: name, Ctx: rj.S("WC"), HasContent: true, Content: inner}}
 	case 15, 16:
 		fn := fmt.Sprintf("/inc%d.jet", id)
 		b.files = append(b.files, &rj.File{Name: fn, Body: inner})
@@ -344,7 +356,7 @@ func c07VarMapOracle(p *rj.Program, ref rj.Result, got rj.ImplResult) string {
 }
 
 func C07(r *core.Run) map[string]interface{} {
-	r.Rule = "statement sequences (<=3 over 10 atoms: := = multi-assign discard reads) inside each of 17 frames (if, if-let, range forms, block/yield/include with and without context and parameters, yield-with-content), nested to depth 2 (thorough 3), under 4 variable origins (local only, VarMap, global, both); loop-variable capture over every ranger kind; distinct = distinct reference outputs"
+	r.Rule = "statement sequences (<=3 over 10 atoms: := = multi-assign discard reads) inside each of 20 frames (if, if-let, range forms, block/yield/include with and without context and parameters, yield-with-content), nested to depth 2 (thorough 3), under 4 variable origins (local only, VarMap, global, both); loop-variable capture over every ranger kind; distinct = distinct reference outputs"
 	runSpace(r, c07Flat)
 	runSpace(r, c07Nest)
 	runSpace(r, c07Capture)
